@@ -2,6 +2,7 @@ package main
 
 import (
 	"fmt"
+	"go/constant"
 	"go/token"
 	"go/types"
 
@@ -109,4 +110,98 @@ func countsDown(v ssa.Value) bool {
 		}
 	}
 	return false
+}
+
+// narrowsucc: "x+1" computed in an 8/16-bit unsigned type and compared with
+// another value (the run-detection idiom `gid == prev+1`).  The sum wraps at
+// the top of the type, so the comparison holds for the pair (max, 0): a run
+// that ends at 0xFFFF is continued by glyph 0, and a start sentinel 0xFFFF
+// makes glyph 0 look like a continuation.  Accepted when the operand is shown
+// to be below the type's maximum at the addition (prover), or when the
+// comparison is one half of an ordering test that excludes the wrapped pair.
+func RunNarrowSucc(w *World, r *Report, fns []*ssa.Function, br *boundsRun) {
+	r.Rule("narrowsucc: a sum x+c computed in uint8/uint16 that is compared for (in)equality with another value does not wrap: the prover shows x <= max-c at the addition, or the operands are widened first; otherwise the successor of the type's largest value is taken to be 0 (a start sentinel 0xFFFF, or a run ending at glyph 0xFFFF, merges with glyph 0)")
+	for _, fn := range fns {
+		name := fnName(fn)
+		for _, b := range fn.Blocks {
+			for _, ins := range b.Instrs {
+				bo, ok := ins.(*ssa.BinOp)
+				if !ok || bo.Op != token.ADD {
+					continue
+				}
+				bt, ok := bo.Type().Underlying().(*types.Basic)
+				if !ok || (bt.Kind() != types.Uint8 && bt.Kind() != types.Uint16) {
+					continue
+				}
+				var x ssa.Value
+				var c *ssa.Const
+				if k, ok := bo.Y.(*ssa.Const); ok {
+					x, c = bo.X, k
+				} else if k, ok := bo.X.(*ssa.Const); ok {
+					x, c = bo.Y, k
+				}
+				if c == nil || bo.Referrers() == nil {
+					continue
+				}
+				if _, isC := x.(*ssa.Const); isC {
+					continue
+				}
+				cmp := false
+				for _, ref := range *bo.Referrers() {
+					if cb, ok := ref.(*ssa.BinOp); ok && (cb.Op == token.EQL || cb.Op == token.NEQ) {
+						cmp = true
+					}
+				}
+				if !cmp {
+					continue
+				}
+				key := r.MkKey("narrowsucc", name, fmt.Sprintf("successor test x + %s in %s", c.Value.String(), bt.Name()))
+				if br != nil && br.proveNoWrapAdd(bo) {
+					r.OK("narrowsucc", key, w.Pos(bo.Pos()), "operand shown to be below the type's maximum")
+					continue
+				}
+				r.Fail("narrowsucc", key, w.Pos(bo.Pos()), fmt.Sprintf("%s + %s is computed in %s and compared for equality, and the operand is not shown to be below the largest value of the type: there the sum wraps around to a small value, so a start sentinel or a run that ends at the top of the range is continued by 0", srcText(br, fn, x), c.Value.String(), bt.Name()), nil)
+			}
+		}
+	}
+}
+
+func srcText(br *boundsRun, fn *ssa.Function, v ssa.Value) string {
+	if br != nil {
+		return br.prover(fn).srcOf(v)
+	}
+	return v.Name()
+}
+
+// proveNoWrapAdd: the mathematical value of x+c fits the type of the sum.
+func (br *boundsRun) proveNoWrapAdd(bo *ssa.BinOp) bool {
+	p := br.prover(bo.Parent())
+	var x ssa.Value
+	var c *ssa.Const
+	if k, ok := bo.Y.(*ssa.Const); ok {
+		x, c = bo.X, k
+	} else if k, ok := bo.X.(*ssa.Const); ok {
+		x, c = bo.Y, k
+	}
+	if c == nil {
+		return false
+	}
+	n, ok := constant.Int64Val(constant.ToInt(c.Value))
+	if !ok {
+		return false
+	}
+	return p.fits(p.linOf(x).addc(n), bo, false)
+}
+
+// RunNarrowSuccControl: the must-fire example is reported and its two safe
+// twins (widened arithmetic, guarded operand) are not.
+func RunNarrowSuccControl(r *Report) {
+	RunControl(r, "narrowsucc", "ctlNarrowSucc|", func(w *World, rr *Report, fns []*ssa.Function) {
+		RunNarrowSucc(w, rr, fns, newBoundsRun(w))
+		for _, o := range rr.Obls {
+			if o.Rule == "narrowsucc" && o.Status == StViolation && (containsFunc(o.Key, "ctlNarrowSuccWide") || containsFunc(o.Key, "ctlNarrowSuccGuard")) {
+				r.Fail("control", r.MkKey("control", "narrowsucc", "safe twin "+o.Key), o.Pos, "rule narrowsucc reports a safe example: "+o.Detail, nil)
+			}
+		}
+	})
 }
